@@ -239,10 +239,21 @@ fn same_failure(a: &Violation, b: &Violation) -> bool {
 
 /// Greedy delta debugging over the scenario's one-step candidates.
 pub fn minimise(scn: &dyn DynScenario, seed: u64, case: Value, target: &Violation, budget: usize) -> (Value, Violation, usize, bool) {
-    let mut cur = case;
+    // make recorded run-time decisions (schedules...) explicit first
+    let mut cur = crate::framework::apply_patch(&case, target.patch.as_ref());
     let mut cur_v = target.clone();
     let mut used = 0usize;
     let mut hung = false;
+    if target.patch.is_some() {
+        used += 1;
+        match scn.run_json(seed, &cur, false) {
+            Ok(o) if o.violation.as_ref().is_some_and(|v| same_failure(v, target)) => {}
+            _ => {
+                // the explicit form does not reproduce: keep the seeded form
+                cur = case;
+            }
+        }
+    }
     'outer: loop {
         let cands = scn.shrink_json(&cur);
         for c in cands {
@@ -257,7 +268,7 @@ pub fn minimise(scn: &dyn DynScenario, seed: u64, case: Value, target: &Violatio
             }
             if let Some(v) = o.violation {
                 if same_failure(&v, target) {
-                    cur = c;
+                    cur = crate::framework::apply_patch(&c, v.patch.as_ref());
                     cur_v = v;
                     continue 'outer;
                 }
@@ -576,7 +587,7 @@ pub fn cmd_run(args: &[String]) -> i32 {
             let _ = std::fs::write(
                 &replay_path,
                 serde_json::to_vec_pretty(&json!({
-                    "property": scn.property(), "scenario": scn.name(), "seed": rseed, "case": first["case"],
+                    "property": scn.property(), "scenario": scn.name(), "seed": rseed, "case": crate::framework::apply_patch(&first["case"], first["violation"].get("patch")),
                     "violation": first["violation"], "signature": sig, "minimisation": {"candidates_tried": 0, "note": "not minimised"}
                 }))
                 .unwrap_or_default(),
